@@ -198,7 +198,7 @@ def judge(case, cli, pathsets):
                 a, b = "{ROOT}/" + a, "{ROOT}/" + b
                 if a in pos and b in pos and pos[a] > pos[b]:
                     bad.append(("order-violated", "%s (defines what %s references) is listed after it; filelist: %s"
-                                % (a, b, [x.split("/", 2)[-1] for x in srcs if x]), None))
+                                % (a, b, [x[len("{ROOT}/"):] for x in srcs if x]), None))
                     break
     else:
         want = "{ROOT}/" + (case["out_dir"] if case.get("out_dir") else "prj") + "/" + case["target"][1]
@@ -368,6 +368,18 @@ def to_replay(case):
     return {k: v for k, v in case.items()}
 
 
+def normalise_case(c):
+    """a case read back from JSON: tuples where the code expects tuples"""
+    c["target"] = tuple(c["target"])
+    c["smap"] = tuple(c["smap"]) if c.get("smap") else None
+    if c.get("syms"):
+        for s in c["syms"]:
+            s["file"] = tuple(s["file"])
+    if c.get("order"):
+        c["order"] = [tuple(x) for x in c["order"]]
+    return c
+
+
 def run(tier, seed, replay):
     res = C.Result(PID, "proof", tier, seed)
     res.coverage["trusted_base"] = C.std_trusted_base([
@@ -410,7 +422,7 @@ def eval_cases(veryl, hbin, cases, scratch):
 def _run(res, tier, seed, replay, proved, veryl, hbin, scratch):
     if replay:
         rp = json.load(open(replay))
-        case = rp
+        case = normalise_case(rp)
         pss, clis = eval_cases(veryl, hbin, [case], scratch)
         bad = judge(case, clis[0], pss[0])
         print("replay: filelist =", parse_filelist(case, clis[0]))
@@ -422,8 +434,16 @@ def _run(res, tier, seed, replay, proved, veryl, hbin, scratch):
     rng = random.Random(seed * 7907 + 25)
     n = 40 if tier == "quick" else 600
     cases = G.c25_corpus()
+    have = set(c["tag"] for c in cases)
+    cd = os.path.join(C.VERIF, "corpus", PID)
+    for f in sorted(os.listdir(cd)) if os.path.isdir(cd) else []:
+        if f.endswith(".json"):
+            c = json.load(open(os.path.join(cd, f)))
+            if c.get("tag") not in have:
+                cases.append(normalise_case(c))
+    ncorpus = len(cases)
     i = 0
-    while len(cases) < n + 4:
+    while len(cases) < n + ncorpus:
         force = {}
         if i % 9 == 3:
             force["cyclic"] = True
